@@ -26,4 +26,18 @@ PROPS = {
         ],
         "explanation": "C03 (a),(b) are postconditions of valid_qualified_name/add_namespace/set_default_namespace; (c) is the ghost invariant InvHanded (every handed-out name is anchored in the manager's own tables) plus lemma handed-names-resolve over the verified text-resolution postcondition.",
     },
+    "C04": {
+        "level": "proof",
+        "driver": "replay/c04.py",
+        "timeout": 20.0,
+        "trusted_base": TRUSTED_SOLVERS + ["pigeonhole on finite sets (a subset of equal size is the whole set), instantiated for the sets built by set(list) / the key sets of dicts whose len() is compared"],
+        "assumptions": A_COMMON + [
+            "record state view: _attributes is a dict keyed by QualifiedName (by URI, first key object kept) of python sets of values (membership by the canonical key ck: True==1, QualifiedName==Identifier with equal URI, Literal datatypes by URI; first representative kept)",
+            "A3/A4: floats and datetimes are abstract sorts whose equality is Python's ==; the cross-kind collision 1 == 1.0 and NaN are excluded (as the properties exclude them)",
+            "python sets of records are keyed by the record key (type, identifier URI, attribute pair set); sound because the lemmas of this property show ProvRecord.__eq__/__hash__ agree with it",
+            "precondition: records satisfy the attribute-table representation invariant AttrsWF (established by the constructors; see C05)",
+            "scripts/prov-compare is not under contract (argparse/IO wrapper around d1 == d2)",
+        ],
+        "explanation": "Each __eq__/__ne__/__hash__ is verified against a specification predicate (record key equality; same record-key sets; same bundle ids with the same record-key sets); reflexivity, symmetry, transitivity and hash agreement are lemmas over those predicates.",
+    },
 }
